@@ -500,7 +500,7 @@ func c03Guarded(c *Check, id string, m *msgFields) {
 	nacc := 0
 	for _, f := range []*types.Var{m.State, m.AckCh, m.NackCh} {
 		for _, a := range la.Accesses(f) {
-			fn := a.Ins.Parent()
+			fn := HomeFn(a.Ins.Parent())
 			k := fmt.Sprintf("%s of %s", a.What, roleOf(m, f))
 			if fn == m.NewMessage {
 				c.Report(true, id, "GUARDED-BY/constructor", fn, a.Ins.Pos(), k, "constructor: the object is not shared yet")
